@@ -250,6 +250,23 @@ class SimRawSink(io.RawIOBase):
         return b"".join(self.segments)
 
 
+ALLOC_LIMIT = 1 << 30
+
+
+class AllocLimitedBufferedReader(io.BufferedReader):
+    """A real BufferedReader whose allocator is simulated for huge requests:
+    BufferedReader.read(n) allocates n bytes up front; whether that succeeds for
+    n in the gigabytes depends on the machine (RAM, overcommit policy, rlimits)
+    and on the process's current address-space usage.  To keep runs exactly
+    repeatable the decision is made here: a single request above 1 GiB fails
+    the way it would on a memory-limited machine."""
+
+    def read(self, n=-1):
+        if n is not None and n > ALLOC_LIMIT:
+            raise MemoryError(f"sim: cannot allocate {n} bytes for one read request")
+        return super().read(n)
+
+
 def seq_chunker(sizes: list[int]):
     """Chunker that replays a recorded list of sizes, then gives everything."""
     it = iter(sizes)
